@@ -39,6 +39,8 @@ Types == << Struct(<<Field(A_, Prim("string")), Field(Id, Prim("int")), Field(AE
             Struct(<<Field(None, Inner)>>),                                 \* ... over an empty result
             Struct(<<Field(CountA, Slice(Prim("int")))>>),                  \* slice field over a number
             Struct(<<Hidden(B_, Prim("string"))>>),                         \* unexported tagged field
+            Struct(<<Hidden(B_, Struct(<<Field(Rel(<<Self>>), Prim("string"))>>))>>),           \* unexported tagged field holding a struct by value
+            Slice(Struct(<<Hidden(Rel(<<Self>>), Struct(<<Field(Rel(<<Self>>), Prim("string"))>>))>>)),
             Struct(<<Field(A_, [k |-> "map"])>>), Struct(<<Field(A_, [k |-> "array"])>>), Struct(<<Field(A_, [k |-> "chan"])>>),
             Struct(<<Field(A_, [k |-> "iface"])>>), Struct(<<Field(A_, [k |-> "func"])>>),
             Struct(<<Field(A_, Slice(Slice(Prim("int"))))>>), Struct(<<Field(None, Slice(Slice(Prim("int"))))>>),
